@@ -7,6 +7,7 @@ import random
 import shutil
 import tempfile
 import time
+import unicodedata
 
 import common as C
 
@@ -65,13 +66,153 @@ SEGS = ["x", "y", "d", "e", "p.q", "_dds_metax", "r s", "é"]
 KEYS = ["%064x" % (0xabc0 + i) for i in range(6)]
 
 
-def gen_history(rng, ct):
+# --------------------------------------------------------------------------- the alphabet of path segments
+# A dds path is any sequence of non-empty '/'-free segments other than '.' and '..' (dds.store.path_segments).  The store has to keep apart
+# paths that differ in any byte: record and copy of a path live at <data_dir>[/_dds_meta]/<segments joined by '/'>, byte for byte (Coq:
+# redir_uri / obj_uri).  seg_variants(s) are the neighbours of a segment s that a URI parser, a URL quoting routine, posix path handling
+# (pathlib normalisation, suffix / stem arithmetic, strip / rstrip, globbing, '~' expansion) or text handling (case folding, unicode
+# normalisation, white space and line handling) may identify with s or with one another.
+STEMS = ["x", "rep", "p.q", "é", "r s", "_dds_meta"]
+RESERVED = "_dds_meta"
+FKEYS = ["%08x" % (0xfab00 + i) for i in range(16)]        # short keys: the model evaluation is linear in the bytes
+
+
+def seg_variants(s):
+    """[(class, segment)]: every segment differs from s and from the other ones, none is '.', '..' or contains '/'."""
+    out = [("uri-query", s + "?"), ("uri-query", s + "?q=1"), ("uri-query", "?" + s), ("uri-query", s + "?#"), ("uri-query", "?"),
+           ("uri-fragment", s + "#"), ("uri-fragment", s + "#frag"), ("uri-fragment", "#" + s), ("uri-fragment", "#"),
+           ("percent", s + "%"), ("percent", s + "%20"), ("percent", s + "%3F"), ("percent", s + "%2F"), ("percent", s + "%25"), ("percent", "%"),
+           ("space", s + " "), ("space", " " + s), ("space", s + " " + s), ("space", " "),
+           ("uri-delimiter", s + "+"), ("uri-delimiter", s + "+" + s), ("uri-delimiter", s + "&"), ("uri-delimiter", s + "="), ("uri-delimiter", s + ";"),
+           ("uri-delimiter", s + ";v=1"), ("uri-delimiter", s + ":"), ("uri-delimiter", s + ":80"), ("uri-delimiter", s + "@"), ("uri-delimiter", s + "@h"),
+           ("uri-delimiter", s + ","), ("uri-delimiter", s + "!"), ("uri-delimiter", s + "$"), ("uri-delimiter", s + "|"),
+           ("dots", s + "."), ("dots", s + ".."), ("dots", "." + s), ("dots", ".." + s), ("dots", "..."),
+           ("suffix", s + ".csv"), ("suffix", s + ".json"), ("suffix", s + ".tar"), ("suffix", s + ".tar.gz"), ("suffix", s + ".meta"), ("suffix", s + ".csv.json"),
+           ("tilde", s + "~"), ("tilde", "~" + s), ("tilde", "~"),
+           ("glob", s + "*"), ("glob", "*"), ("glob", s + "[0]"), ("glob", s + "{a,b}"),
+           ("backslash-quote", s + "\\"), ("backslash-quote", s + "\\" + s), ("backslash-quote", s + "'"), ("backslash-quote", s + '"'),
+           ("control", s + "\t"), ("control", s + "\n"), ("control", s + "\r"), ("control", s + "\r\n"), ("control", "\t" + s), ("control", s + "\t" + s),
+           ("prefix", s + s), ("prefix", s + "_"), ("prefix", s + "0"),
+           ("unicode", unicodedata.normalize("NFC", s + "ü")), ("unicode", unicodedata.normalize("NFD", s + "ü")), ("unicode", s + "\u00a0"), ("unicode", s + "\u200b"),
+           ("unicode", s + "\u2028"), ("unicode", s + "ß"), ("unicode", s + "ss")]
+    if s.swapcase() != s:
+        out.append(("case", s.swapcase()))
+    if s.capitalize() not in (s, s.swapcase()):
+        out.append(("case", s.capitalize()))
+    segs = [v for _, v in out]
+    assert len(set(segs)) == len(segs) and s not in segs and not any(v in ("", ".", "..") or "/" in v for v in segs), s
+    return out
+
+
+N_VARIANTS = max(len(seg_variants(st)) for st in STEMS)
+CLASSES = sorted(set(c for c, _ in seg_variants("x")))
+
+
+def gen_family(rng, stem=None, variants=None, n=None, tail=None):
+    """Paths that differ in one segment only: parent segments + (the stem | one of its variants) + tail segments; the variable segment is the
+    last one, a directory, or the first one.  ({path: class}, position); the path of the stem itself has class 'stem' (left out where it
+    would be the reserved first segment, finding F35)."""
+    stem = stem if stem is not None else rng.choice(STEMS)
+    if variants is None:
+        variants = rng.sample(seg_variants(stem), n or rng.randint(2, 5))
+    parent = [rng.choice(SEGS) for _ in range(rng.choice([0, 1, 1, 1, 2]))]
+    tail = [rng.choice(SEGS) for _ in range(rng.choice([0, 0, 0, 1]) if tail is None else tail)]
+    fam = {}
+    for cls, seg in [("stem", stem)] + list(variants):
+        if not parent and seg == RESERVED:
+            continue
+        fam["/" + "/".join(parent + [seg] + tail)] = cls
+    return fam, ("only" if not parent and not tail else "first" if not parent else "last" if not tail else "directory")
+
+
+def gen_family_history(rng, ct, fam_pos):
+    """An admissible history (every blob first, written once) over a family of paths: one call commits all of them to keys of their own, then
+    single paths move to a spare key or to the key of a sibling, and a last call commits every path again to the key it has (nothing to write)."""
+    fam, pos = fam_pos
+    paths = list(fam)
+    rng.shuffle(paths)
+    keys = FKEYS[:len(paths) + 2]
+    assert len(keys) == len(paths) + 2, "family too large"
+    ops = [["blob", k, ("content-é-%s" % k[-3:]).encode("utf-8").hex()] for k in keys]
+    cur = dict(zip(paths, keys))
+    if rng.random() < 0.7:
+        ops.append(["sync", [[p, cur[p]] for p in paths]])
+    else:
+        ops += [["sync", [[p, cur[p]]]] for p in paths]
+    for _ in range(rng.randint(1, 3)):
+        ps = rng.sample(paths, rng.randint(1, min(2, len(paths))))
+        for p in ps:
+            cur[p] = rng.choice(keys[-2:] + [cur[q] for q in paths if q != p])
+        ops.append(["sync", [[p, cur[p]] for p in ps]])
+    if rng.random() < 0.7:
+        rng.shuffle(paths)
+        ops.append(["sync", [[p, cur[p]] for p in paths]])
+    return {"commit_type": ct, "hist": ops, "paths": sorted(paths), "family": fam, "variable_segment": pos, "admissible": True}
+
+
+def family_histories(rng, tier):
+    """Quick: every variant (of a stem drawn per family) once as last segment, the families alternately under 'full' and 'links_only', one
+    family under 'none', and random families (variable segment anywhere).  Thorough: every variant of every stem as last segment, of two
+    stems as a directory, under the three commit types, and many random families."""
+    hs = []
+
+    def sweep(ct, stem, tail, limit=None):
+        order = list(range(N_VARIANTS))
+        rng.shuffle(order)
+        for n, i in enumerate(range(0, len(order[:limit]), 8)):
+            st = stem or rng.choice(STEMS)
+            sv = seg_variants(st)
+            ct_ = ct if isinstance(ct, str) else ct[n % len(ct)]
+            hs.append(gen_family_history(rng, ct_, gen_family(rng, st, [sv[j] for j in order[:limit][i:i + 8] if j < len(sv)], tail=tail)))
+    if tier == "quick":
+        sweep(rng.choice([["full", "links_only"], ["links_only", "full"]]), None, 0)
+        sweep("none", None, 0, limit=8)
+    else:
+        for ct in ("full", "links_only", "none"):
+            for stem in STEMS:
+                sweep(ct, stem, 0)
+            for stem in rng.sample(STEMS, 2):
+                sweep(ct, stem, 1)
+    for _ in range(5 if tier == "quick" else 150):
+        fam = gen_family(rng)
+        if rng.random() < 0.7:
+            hs.append(gen_family_history(rng, rng.choice(["full", "full", "links_only", "none"]), fam))
+        else:           # any history over these paths (overwritten blobs, keys without blob): compared with the model only
+            hs.append(dict(gen_history(rng, rng.choice(["full", "links_only"]), sorted(fam[0])), family=fam[0], variable_segment=fam[1]))
+    return hs
+
+
+def alphabet_case(rng, ct, whole):
+    """dds.keep / dds.load over a family of paths: every path gets a result of its own (type drawn per path); then (small families) one path
+    gets a new result - a sibling stored at the same place would go stale - and one a new result and the former one back; every path is
+    loaded and the data directory listed.  whole: the stem and every variant of it, as last segment."""
+    stem = rng.choice(STEMS)
+    fam, pos = gen_family(rng, stem, seg_variants(stem) if whole else None, tail=0 if whole else None)
+    paths = list(fam)
+    rng.shuffle(paths)
+    plan, steps = {}, []
+    for i, p in enumerate(paths):
+        plan[p] = (rng.choice(["str", "bytes", "none", "obj"]), "a%d" % i)
+        steps.append({"keep": [p, plan[p][0], plan[p][1]]})
+    if not whole:
+        p = rng.choice(paths)
+        plan[p] = (plan[p][0], "b")
+        steps.append({"keep": [p, plan[p][0], "b"]})
+        q = rng.choice(paths)
+        steps.append({"keep": [q, plan[q][0], "c"]})
+        steps.append({"keep": [q, plan[q][0], plan[q][1]]})
+    steps += [{"load": p} for p in paths] + [{"listing": True}]
+    return {"commit_type": ct, "steps": steps, "plan": [(p, plan[p][0], plan[p][1]) for p in paths], "alphabet": fam, "variable_segment": pos}
+
+
+def gen_history(rng, ct, paths=None):
     """Blobs (write-once contents, now and then an overwrite), multi-path commits sharing keys between paths, commits of keys
     without a blob (the call raises under 'full'); first segments are never the reserved directory name (finding F35)."""
-    paths = []
-    for _ in range(rng.randint(2, 6)):
-        paths.append("/" + "/".join(rng.choice(SEGS) for _ in range(rng.randint(1, 3))))
-    paths = sorted(set(paths))
+    if paths is None:
+        paths = []
+        for _ in range(rng.randint(2, 6)):
+            paths.append("/" + "/".join(rng.choice(SEGS) for _ in range(rng.randint(1, 3))))
+        paths = sorted(set(paths))
     content = {}
     ops = []
     have = []
@@ -104,8 +245,11 @@ def coq_history(h):
     return f"run_show (S0 {ctc}) [" + "; ".join(ops) + "]"
 
 
-def check_histories(rep, rng, n):
+def check_histories(rep, rng, n, tier="quick"):
     hs = [gen_history(rng, rng.choice(["full", "links_only", "none"])) for _ in range(n)]
+    # the alphabet of path segments: families of paths that differ in one segment only, by a character a URI parser / posix path handling /
+    # text handling may drop or rewrite; same comparison (file for file with the model, dictionary semantics)
+    hs += family_histories(rng, tier)
     # targeted: a path whose record is up to date followed, in one call, by a new path committed to the same key
     k0, k1 = KEYS[0], KEYS[1]
     c0, c1 = b"zero".hex(), b"one".hex()
@@ -131,6 +275,18 @@ def check_histories(rep, rng, n):
                                  [coq_history(h).replace("run_show", "run_trace", 1) for h in hs], label="c19t")
     n_multi = n_raise = 0
     n_writes = 0
+    fams = [h for h in hs if "family" in h]
+    by_class = {}
+    for h in fams:
+        for c in h["family"].values():
+            by_class[c] = by_class.get(c, 0) + 1
+
+    def alpha(h, paths):
+        """Suffix of the violation key and of its text when the paths concerned belong to a family: the class of the variable segment."""
+        cl = sorted(set(h["family"][p] for p in paths if p in h.get("family", {})) - {"stem"}) or (["stem"] if "family" in h else [])
+        if not cl:
+            return "", ""
+        return ":path-alphabet:" + cl[0], f" [paths of the history that differ in one segment only: {sorted(h['family'])}]"
     for h, r, mt in zip(hs, res, mtraces):
         if isinstance(r, dict):
             continue
@@ -159,8 +315,10 @@ def check_histories(rep, rng, n):
                           {"history": h, "impl": o["oks"], "model": moks})
         if mfiles != ifiles:
             diff = sorted(set(mfiles.items()) ^ set(ifiles.items()))[:3]
-            rep.violation("model-mismatch:dbfs-files", f"history under {h['commit_type']}: the file system differs from the model at "
-                          f"{[bytes.fromhex(k).decode('utf-8', 'replace') for k, _ in diff]}", {"history": h, "impl": o["files"], "model": mfiles})
+            where = [bytes.fromhex(k).decode('utf-8', 'replace') for k, _ in diff]
+            ak, at = alpha(h, [p for p in h["paths"] if any(w.endswith(p) for w in where)])
+            rep.violation("model-mismatch:dbfs-files" + ak, f"history under {h['commit_type']}: the file system differs from the model at "
+                          f"{where}" + at, {"history": h, "impl": o["files"], "model": mfiles})
         # the property itself, on histories where every call completed: dictionary semantics, copies, nothing else
         seen_content = {}
         write_once = all(seen_content.setdefault(op[1], op[2]) == op[2] for op in h["hist"] if op[0] == "blob")
@@ -182,14 +340,20 @@ def check_histories(rep, rng, n):
                     rep.violation("history:uncommitted-path-visible", f"{p} was never committed under {mode} but is readable / has files", {"history": h, "path": p, "out": o})
                 continue
             k, content = want[p]
+            ak, at = alpha(h, [p])
             if got != k:
-                rep.violation("history:record-missing-or-stale:" + mode, f"after the history {p} should be committed to {k[-4:]}, fetch_paths gives {str(got)[-12:]}",
-                              {"history": h, "path": p, "out": o})
+                others = [q for q in want if q != p and want[q][0] == got and want[q][0] != k]
+                rep.violation("history:record-missing-or-stale:" + mode + ak, f"after the history {p!r} should be committed to {k[-4:]}, fetch_paths gives {str(got)[-12:]}"
+                              + (f" (the key committed to {others[0]!r})" if len(others) == 1 else f" (the key committed to one of {others[:4]})" if others else "") + at, {"history": h, "path": p, "out": o})
             if mode == "FULL" and o["files"].get(obj) != content:
-                rep.violation("history:full-copy-missing-or-stale", f"no byte-identical copy of the result at {obj}", {"history": h, "path": p, "out": o})
+                rep.violation("history:full-copy-missing-or-stale" + ak, f"no byte-identical copy of the result at {obj!r}" + at, {"history": h, "path": p, "out": o})
             if mode == "LINK_ONLY" and obj in o["files"]:
                 rep.violation("history:links-only-copies-data", f"links-only commit wrote {obj}", {"history": h, "path": p, "out": o})
-    return {"histories": len(hs), "multi_path_commits": n_multi, "calls_that_raised": n_raise, "dbutils_writes_compared_with_the_write_level_model": n_writes}
+    return {"histories": len(hs), "multi_path_commits": n_multi, "calls_that_raised": n_raise, "dbutils_writes_compared_with_the_write_level_model": n_writes,
+            "path_alphabet": {"family_histories": len(fams), "admissible": sum(1 for h in fams if h.get("admissible")),
+                              "paths": sum(len(h["family"]) for h in fams), "paths_by_class_of_the_variable_segment": by_class,
+                              "variable_segment_is": {w: sum(1 for h in fams if h["variable_segment"] == w) for w in ("only", "first", "directory", "last")},
+                              "by_commit_type": {ct: sum(1 for h in fams if h["commit_type"] == ct) for ct in ("full", "links_only", "none")}}}
 
 
 def check_findings(rep):
@@ -540,6 +704,17 @@ def run(rep, tier, seed, proof_ok):
                 "a legacy or current codec reference decode with the codec of that kind, also when a path is committed to them under each commit type; "
                 "+ store-level histories (blobs, sync_paths calls with 1..4 paths sharing keys, keys without blob) compared file for file and call "
                 "outcome for call outcome with the Coq model drun, and against the dictionary semantics; "
+                "+ the alphabet of path segments: families of paths that differ in ONE segment only (the last one, a directory or the first one) - a stem "
+                "(x, rep, p.q, é, 'r s', and the reserved name _dds_meta, itself never a first segment) and variants of it by what a URI parser ('?', '#', "
+                "'?q=1', '#frag', bare '?' / '#'), URL quoting ('%', '%20', '%3F', '%2F', '%25', '+'), URI delimiters ('&', '=', ';', ':', '@', ',', '!', '$', '|'), "
+                "posix path handling (trailing / leading dots, '...', suffixes .csv / .json / .tar / .tar.gz / .meta on one stem, '~', '*', '[0]', '{a,b}', "
+                "backslash, quotes), white space (leading / trailing / bare space, tab, CR, LF) or text handling (case, NFC / NFD, NBSP, zero-width space, "
+                "U+2028, ß / ss, one name a prefix of the other) may drop or identify - committed in ONE store-level history to keys of their own "
+                "(one multi-path call, then paths moved to a spare key or to the key of a sibling, then everything committed again unchanged), compared "
+                "file for file and write for write with the Coq model (uri = data_dir [/_dds_meta] / segments, byte for byte) and with the dictionary "
+                "semantics; and through dds.keep / dds.load (each path a result of its own, one result changed, one changed and taken back; every path loads "
+                "its own result, has its own record / copy, and nothing else is below the data directory); quick: every variant once as last segment at store level (families alternately under full and "
+                "links_only) and once per commit type through keep / load, thorough: every variant of every stem under the three commit types as last segment, of two stems as directory; "
                 "+ fault dimension: for each commit type x scenario (first keep of a str / bytes / object result, keep after a code change, unchanged keep, "
                 "keep of a present result at a second path, nested keeps committed by one call, nested keeps with one result present, evaluation that "
                 "loads, load, and a change taken back after the fault) the n-th dbutils.fs call (head / put / cp) of the evaluation fails, for EVERY n "
@@ -578,6 +753,12 @@ def run(rep, tier, seed, proof_ok):
     for ct in ("full", "links_only", "none"):
         cases.append({"commit_type": ct, "plan": [], "legacy_sync": True,
                       "steps": [{"legacy_sync": [f"def{i}", ref, kind, f"/leg/p{i}"]} for i, (ref, kind) in enumerate(LEGACY)] + [{"listing": True}]})
+    # the alphabet of path segments through dds.keep / dds.load: per commit type the stem and every variant of it in one directory, and small
+    # families (variable segment anywhere) with results that change and come back
+    for ct in ("full", "links_only", "none"):
+        for whole in [True] + [False] * (1 if tier == "quick" else 12):
+            cases.append(alphabet_case(rng, ct, whole))
+    alpha_cases = [c for c in cases if "alphabet" in c]
     with cf.ThreadPoolExecutor(max_workers=C.NPROC) as ex:
         res = list(ex.map(run_case, cases))
     for r in res:
@@ -626,31 +807,46 @@ def run(rep, tier, seed, proof_ok):
                 rep.violation("keep-wrong:" + mode, f"keep returned {o[:60]} instead of {want[:60]} under {mode}", replay)
         loads = out[1 + nk: 1 + nk + len(c["plan"])]
         listing = out[-1]["data_files"] if isinstance(out[-1], dict) else {}
+        fam = c.get("alphabet", {})
+        stem_paths = [q for q in fam if fam[q] == "stem"]
+        sibs = (f" [{len(fam)} paths that differ in one segment only are kept in this run" + (f": {sorted(fam)}]" if len(fam) <= 8 else
+                f", the stem {stem_paths[0]!r} and every variant of it]" if stem_paths else f", every variant of {RESERVED!r} as first segment]")) if fam else ""
+        expected_files = set()
         for (p, k, salt), o in zip(c["plan"], loads):
             rec = "dbfs:/s/data/_dds_meta" + p
             obj = "dbfs:/s/data" + p
+            ak = ":path-alphabet:" + fam[p] if p in fam else ""
             if mode == "NO_COMMIT":
                 if rec in listing or obj in listing:
-                    rep.violation("none-writes-files", f"commit type none wrote {rec if rec in listing else obj}", replay)
+                    rep.violation("none-writes-files" + ak, f"commit type none wrote {rec if rec in listing else obj!r}" + sibs, replay)
                 if not o.startswith("X:") and not o.startswith("E:"):
-                    rep.violation("none-load-works", f"load returned {o[:40]} although nothing was committed", replay)
+                    rep.violation("none-load-works" + ak, f"load({p!r}) returned {o[:40]} although nothing was committed" + sibs, replay)
                 continue
+            expected_files |= {rec, obj} if mode == "FULL" else {rec}
             if rec not in listing:
-                rep.violation("record-missing:" + mode, f"no redirect record for {p} under {mode}", replay)
+                rep.violation("record-missing:" + mode + ak, f"no redirect record for {p!r} under {mode}" + sibs, replay)
             if o != "L:" + value_of(k, salt):
-                rep.violation("load-wrong:" + mode, f"load({p}) returned {o[:60]} instead of {value_of(k, salt)[:60]} under {mode}", replay)
+                same = [q for q, k2, s2 in c["plan"] if q != p and o == "L:" + value_of(k2, s2) and value_of(k2, s2) != value_of(k, salt)]
+                rep.violation("load-wrong:" + mode + ak, f"load({p!r}) returned {o[:60]} instead of {value_of(k, salt)[:60]} under {mode}"
+                              + (f" (the result kept at {same[0]!r})" if len(same) == 1 else f" (the result kept at one of {same[:4]})" if same else "") + sibs, replay)
             if mode == "FULL":
                 raw = raw_of(k, salt)
                 if obj not in listing:
-                    rep.violation("full-copy-missing", f"no copy of the result at {obj}", replay)
+                    rep.violation("full-copy-missing" + ak, f"no copy of the result at {obj!r}" + sibs, replay)
                 elif raw is not None and listing[obj] != raw:
-                    rep.violation("full-copy-not-identical", f"the copy at {obj} is not byte-identical to the result", replay)
+                    rep.violation("full-copy-not-identical" + ak, f"the copy at {obj!r} is not byte-identical to the result" + sibs, replay)
             if mode == "LINK_ONLY" and obj in listing:
-                rep.violation("links-only-copies-data", f"links-only commit wrote the data file {obj}", replay)
+                rep.violation("links-only-copies-data" + ak, f"links-only commit wrote the data file {obj!r}" + sibs, replay)
+        stray = sorted(f for f in listing if f not in expected_files)
+        if stray:
+            rep.violation("stray-files:" + mode + (":path-alphabet" if fam else ""), f"files below the data directory that belong to no kept path under {mode}: {stray[:3]}" + sibs, replay)
     check_findings(rep)
     fd = check_faults(rep, random.Random(seed + 1), tier)
-    hd = check_histories(rep, rng, 40 if tier == "quick" and proof_ok else 600)
-    rep.extra["input_distribution"] = {"store_level_histories": hd, "fault_injection": fd, "cases": len(cases), "commit_types": [str(x) for x in DOCUMENTED + ENUM_NAMES], "legacy_references": [x[0] for x in LEGACY]}
+    hd = check_histories(rep, rng, 40 if tier == "quick" and proof_ok else 600, tier)
+    rep.extra["input_distribution"] = {"store_level_histories": hd, "fault_injection": fd, "cases": len(cases),
+                                       "path_alphabet": {"classes_of_segment_variants": CLASSES, "variants_per_stem": N_VARIANTS, "stems": STEMS,
+                                                         "keep_load_cases": len(alpha_cases), "of_them_whole_alphabet": sum(1 for c in alpha_cases if len(c["alphabet"]) > 8),
+                                                         "paths_kept": sum(len(c["alphabet"]) for c in alpha_cases)}, "commit_types": [str(x) for x in DOCUMENTED + ENUM_NAMES], "legacy_references": [x[0] for x in LEGACY]}
     rep.sample({"commit_type": cases[0]["commit_type"], "plan": cases[0]["plan"]})
 
 
